@@ -53,7 +53,7 @@ func TestVerifC04Storage(t *testing.T) {
 		s.auditOnPublish = true
 		s.auditNames = true
 		s.auditOnPublish = true
-		h := &simHist{s: s, opts: simHistOpts{MaxRounds: 7, ClockFaults: false, Faults: true, Shapes: c04Shapes, Existing: big}, nextID: bigNext}
+		h := &simHist{s: s, opts: simHistOpts{MaxRounds: 7, ClockFaults: false, Faults: true, Shapes: c04Shapes, Existing: big, RoundDuringSubmit: true}, nextID: bigNext}
 		partialToFull := false
 		lastPub := int64(0)
 		h.afterRound = func(res *simRoundResult) error {
@@ -109,6 +109,9 @@ func TestVerifC04Storage(t *testing.T) {
 		add(h.st.FaultsFired > 0, "fault-fired")
 		add(h.st.Crashes > 0, "crash")
 		add(h.st.MultiTile > 0, "multi-tile-round")
+		add(h.st.RoundsInsideSubmit > 0, "round-inside-issuer-upload")
+		rec.Add("admitted-before-issuer-stored", int64(s.admittedBeforeIssuer))
+		rec.Add("twins-with-issuers", int64(h.st.TwinsWithIssuers))
 		rec.Add("audits-at-publication", int64(s.audits))
 		rec.Add("leaves", int64(len(s.model)))
 		rec.Add("operations", int64(s.w.opN))
